@@ -26,6 +26,8 @@ package pstore
 //   Then the same operation is repeated with a live context. For create, when the first call left no trace: a refusal
 //   is a label only (the statement does not say an id can be created after a failed attempt), success obliges
 //   Read == submitted. For delete, when the victim is still readable: success obliges "no rows of it".
+// One case in three injects a storage fault instead (Fault): the statement that writes row K fails with an error while the
+// context stays alive — "faults of Create other than encoding"; same oracle.
 // No timing is involved in where the cancellation lands; the verdict is read off the final store.
 // A call that does not return within the stall window is skipped under a label (the vault is abandoned), never judged.
 
@@ -63,6 +65,8 @@ type CancelParams struct {
 	Others []store.PlanSpec `json:",omitempty"`
 	// File: file-backed store instead of the in-memory one.
 	File bool
+	// Fault: instead of ending the context, the statement that writes row K fails with a storage error (K = 0: no fault).
+	Fault bool `json:",omitempty"`
 }
 
 func genCancelParams(t *rapid.T) *CancelParams {
@@ -80,6 +84,7 @@ func genCancelParams(t *rapid.T) *CancelParams {
 	if p.Op == "create" {
 		p.ViaSubmit = rapid.Bool().Draw(t, "viasubmit")
 	}
+	p.Fault = store.Uniform(t, 3, "cancelfault") == 0
 	p.PosPM = store.Uniform(t, 1001, "cancelpos")
 	if e := store.Uniform(t, 8, "cancelend"); e < 4 {
 		p.End = e // 0 (position by PosPM) half of the time overall, 1..3 one time in eight each
@@ -144,14 +149,18 @@ func (r *c14run) cancel(c AtomCase) {
 	var hookOp string
 	var hookAt, hookSeen int
 	var hookCancel context.CancelFunc
-	if herr := store.RowHook(h.Sqlite, func(op string) {
+	if herr := store.RowHook(h.Sqlite, func(op string) error {
 		if op != hookOp || hookCancel == nil {
-			return
+			return nil
 		}
 		hookSeen++
 		if hookSeen == hookAt {
+			if p.Fault {
+				return fmt.Errorf("verif: injected storage fault at row %d", hookAt)
+			}
 			hookCancel()
 		}
+		return nil
 	}); herr != nil {
 		h.Close()
 		r.skip("row_hook_failed")
@@ -240,8 +249,14 @@ func (r *c14run) cancel(c AtomCase) {
 		where := fmt.Sprintf("plan of %d objects, context cancelled when row %d had been inserted (via Submit=%v)", objects, k, p.ViaSubmit)
 		ctx, cancelCtx := context.WithCancel(bg)
 		defer cancelCtx()
-		if k == 0 {
+		if k == 0 && !p.Fault {
 			cancelCtx()
+		}
+		if p.Fault {
+			res.Label("cancel_kind:storage-fault")
+			where = fmt.Sprintf("plan of %d objects, the statement inserting row %d fails (via Submit=%v)", objects, k, p.ViaSubmit)
+		} else {
+			res.Label("cancel_kind:context")
 		}
 		hookOp, hookAt, hookSeen, hookCancel = "i", k, 0, cancelCtx
 		var cerr error
@@ -444,8 +459,14 @@ func (r *c14run) cancel(c AtomCase) {
 	res.Label("cancel_delete_at:" + posClass(k, total))
 	ctx, cancelCtx := context.WithCancel(bg)
 	defer cancelCtx()
-	if k == 0 {
+	if k == 0 && !p.Fault {
 		cancelCtx()
+	}
+	if p.Fault {
+		res.Label("cancel_kind:storage-fault")
+		where = fmt.Sprintf("plan of %d objects (%d rows), Delete while the statement deleting row %d fails", objects, total, k)
+	} else {
+		res.Label("cancel_kind:context")
 	}
 	hookOp, hookAt, hookSeen, hookCancel = "d", k, 0, cancelCtx
 	var derr error
